@@ -362,6 +362,20 @@ class C09(Prop):
                 if D == P:
                     qs.append(["st", ["periodic_s", Q, P], d]); meta.append(("pst", Q, D, P, d))
                     qs.append(["st", ["default_st", ["periodic_s", Q, P]], d]); meta.append(("dpst", Q, D, P, d))
+                if Q == P:
+                    qs.append(["st", ["dedicated"], d]); meta.append(("dedst", Q, D, P, d))
+                    qs.append(["st", ["default_st", ["dedicated"]], d]); meta.append(("ddedst", Q, D, P, d))
+        # a dedicated processor on its own (zero demand included) and reservations with a long blackout relative to the demand
+        # (the trait's default inverse needs thousands of probes there)
+        for d in [0, 1, 2, rng.randint(3, 50), rng.randint(50, 5000)]:
+            qs.append(["st", ["dedicated"], d]); meta.append(("ded_id", d))
+            qs.append(["st", ["default_st", ["dedicated"]], d]); meta.append(("ded_id", d))
+        for _ in range(ctx.scale(10, 60)):
+            P = rng.randint(600, 2500); Q = rng.randint(1, 3); D = rng.choice([P, rng.randint(Q, 40)])
+            c = ["constrained_s", Q, D, P] if D != P or rng.random() < 0.5 else ["periodic_s", Q, P]
+            for d in sorted(set([1, Q, Q + 1, rng.randint(1, 3 * Q + 2)])):
+                qs.append(["st", c, d]); meta.append(("long", len(qs)))
+                qs.append(["st", ["default_st", c], d]); meta.append(("long_default", len(qs) - 2))
         for _ in range(ctx.scale(60, 600)):
             sb = gen.gen_sb(rng, ["table_s"])
             qs.append(["sbftab", sb, len(sb[1]) + 30]); meta.append(("ttab", sb))
@@ -391,7 +405,13 @@ class C09(Prop):
                     ctx.oracle("constrained_eq_periodic", tabs[("ptab", Q, D, P)] == dv[1], "Constrained(deadline = period) differs from Periodic", [q, ["sbftab", ["periodic_s", Q, P], 6 * P]], cls="oracle:special_cases")
                 if ("dedtab", Q, D, P) in tabs:
                     ctx.oracle("full_budget_eq_dedicated", tabs[("dedtab", Q, D, P)] == dv[1], "budget = period differs from a dedicated processor", [q], cls="oracle:special_cases")
-            if m[0] in ("cst", "dst", "pst", "dpst"):
+            if m[0] == "ded_id":
+                for name, iv in (("debug", dv), ("release", rv)):
+                    ctx.oracle("dedicated_service_time_is_identity", iv == ("n", m[1]), "%s: service_time(%d) = %s on a dedicated processor (%s build)" % (sx(q), m[1], rta.show(iv), name), [q], cls="oracle:inverse:dedicated")
+            if m[0] == "long_default":
+                closed = rows[m[1]][1]
+                ctx.oracle("default_inverse_equals_closed_form", dv == closed, "default service_time %s differs from the closed form %s on %s" % (rta.show(dv), rta.show(closed), sx(q)), [q, rows[m[1]][0]], cls="oracle:inverse:long_blackout")
+            if m[0] in ("cst", "dst", "pst", "dpst", "dedst", "ddedst"):
                 Q, D, P, d = m[1:5]
                 t = tabs.get(("ctab", Q, D, P))
                 if t is None: continue
@@ -1279,7 +1299,7 @@ class _SchedProp(Prop):
             if not dv or dv[0] != "ok": ctx.dist("outcome", dv[0] if dv else "none"); continue
             ctx.dist("outcome", "ok")
             R = min(dv[1], rv[1]) if rv and rv[0] == "ok" else dv[1]
-            H = min(300, 3 * q[-1] + 20)
+            H = min(300, 3 * q[-1] + 20) if q[-1] < 1500 else 1000       # long busy windows (Lehoczky-style systems): look further
             w, wit = worst_response(tasks, keyf, vi, rng, H, tries=2 if ctx.tier == "quick" else 4)
             # the critical instant of EDF (and of jittered FP) is not synchronous: also release the analysed task
             # with an offset relative to the others
@@ -1290,7 +1310,18 @@ class _SchedProp(Prop):
                 if w2 > w: w, wit = w2, wit2
             tasks[vi]["shift"] = base_shift
             self.judge(ctx, v, q, R, w, wit)
+        # targeted stream, correspondence first; only cases on which the implementation is below the model are simulated
+        extra = self.extra_cases(ctx)
+        if extra:
+            rows = ctx.run([c[1] for c in extra])
+            ctx.correspond(rows, relation=self.relation)
+            for (v, q, tasks, vi, keyf), (_, dv, rv, mv) in zip(extra, rows):
+                ctx.dist("variant", v + ":targeted")
+                if not (dv and mv and dv[0] == "ok" and mv[0] == "ok" and dv[1] < mv[1]): continue
+                w, wit = worst_response(tasks, keyf, vi, rng, 1200, tries=3)
+                self.judge(ctx, v, q, dv[1], w, wit)
         finalize(ctx)
+    def extra_cases(self, ctx): return []
 
 @register("C01")
 class C01(_SchedProp):
@@ -1304,10 +1335,29 @@ class C01(_SchedProp):
     relation = "one"; nquick = 320; nthorough = 4000
     def setup(self, v, rng):
         S = gen_fp_system(rng, ["periodic", "sporadic", "curve", "extrap", "propagated", "jitter"])
-        if rng.random() < 0.5:
+        r = rng.random()
+        if r < 0.45:
             ts = families.gen_dense_system(rng); S["tua"] = ts[0]; S["hp"] = ts[1:]
+        elif r < 0.55: self.lehoczky(S, rng)
         q, tasks, vi = fp_variant_setup(v, S, rng)
+        if 0.45 <= r < 0.55: q[-1] = rng.randint(2500, 6000)
         return q, tasks, vi, fp_key
+    @staticmethod
+    def lehoczky(S, rng):
+        # Lehoczky-style arbitrary-deadline systems: utilisation close to 1, the analysed task fills more than half of its
+        # period, so its busy window spans many of its own jobs and the per-offset bounds dip and rise again
+        T = rng.randint(40, 120); C = max(2, int(T * rng.uniform(0.5, 0.7)))
+        Th = max(3, int(T * rng.uniform(0.4, 0.95))); U = rng.uniform(0.96, 0.999)
+        Ch = max(1, int(Th * (U - C / T)))
+        S["tua"] = ["rbf", ["periodic", T], ["scalar", C]]; S["hp"] = [["rbf", ["periodic", Th], ["scalar", Ch]]]; S["lp"] = S["lp"][:1]
+    def extra_cases(self, ctx):
+        rng = ctx.rng; out = []
+        for _ in range(ctx.scale(400, 3000)):
+            v = rng.choice(self.variants)
+            S = gen_fp_system(rng, ["periodic", "sporadic"]); self.lehoczky(S, rng)
+            q, tasks, vi = fp_variant_setup(v, S, rng); q[-1] = rng.randint(2500, 6000)
+            out.append((v, q, tasks, vi, fp_key))
+        return out
     def judge(self, ctx, v, q, R, w, wit):
         ctx.oracle("no_schedule_exceeds_the_bound", w <= R, "%s returns Ok(%d) but a legal schedule has a job of the analysed task with response time %d" % (v, R, w),
                    [q], cls="oracle:unsafe:" + v, extra=dict(witness=wit))
